@@ -128,17 +128,19 @@ def check(ctx: Ctx, col: Collector, tier: str) -> None:
     col.touched(pfi)
     names = {"plain": "run", "private": "_run", "dunder": "__str__", "init": "__init__", "mangled": "__secret", "private-trailing": "_run_"}
     for nform, name in names.items():
-        for pkind in ("Module", "Class"):
-            for ppub in ((True, False) if pkind == "Class" else (None,)):
+        for pkind in ("Module", "Class", "Constructor"):
+            for ppub in ((True, False) if pkind != "Module" else (None,)):
                 for segs_public in (True, False):
                     for reexp in ("None", "True"):
                         it = ctx.interp(pfi, inline={"is_internal"})
                         par = parent_obj(pkind)
-                        if pkind == "Class":
+                        if pkind in ("Class", "Constructor"):
                             par = Obj("Class", (("id", Sym("PARENT.id")), ("name", Sym("PARENT.name")), ("is_public", Const(ppub))))
-                        st = visitor_state((parent_obj("Module"), par) if pkind == "Class" else (par,))
+                        # an instance attribute is analysed below the constructor of its class: it is as public as a class attribute would be
+                        stack = {"Module": (par,), "Class": (parent_obj("Module"), par), "Constructor": (parent_obj("Module"), par, parent_obj("Constructor"))}[pkind]
+                        st = visitor_state(stack)
                         st.neq[repr(Sym("self.mypy_file"))] = {Const(None)}
-                        qn = Const(("pkg.mod." if segs_public else "pkg._mod.") + ("Cls." if pkind == "Class" else "") + name)
+                        qn = Const(("pkg.mod." if segs_public else "pkg._mod.") + ("Cls." if pkind != "Module" else "") + name)
                         it.summaries[("self._check_publicity_in_reexports", (Const(name), qn, par))] = Const(None) if reexp == "None" else Const(True)
                         outs = it.run_function(pfi, {"self": Sym("self"), "name": Const(name), "qname": qn}, st)
                         vals = {o.value if o.kind == "return" else Const(f"raise {o.exc}") for o in outs}
@@ -146,7 +148,7 @@ def check(ctx: Ctx, col: Collector, tier: str) -> None:
                             want = True
                         elif nform in ("private", "mangled", "private-trailing"):
                             want = False
-                        elif pkind == "Class" and nform in ("plain", "init"):
+                        elif pkind in ("Class", "Constructor") and nform in ("plain", "init"):
                             want = ppub
                         else:
                             want = segs_public
